@@ -96,6 +96,11 @@ func Resume(
 				// file most-likely contains the index and we cannot know where it starts, therefore
 				// can't resume.
 				return errors.New("corrupt CARv2 header; cannot resume from file")
+			} else if headerInFile.IndexOffset < headerInFile.DataOffset+headerInFile.DataSize {
+				// Finalize writes the header last and the index offset is its last field: a header
+				// whose index offset lies inside the payload was torn while being written, and its
+				// data size cannot be trusted to truncate the file by.
+				return errors.New("corrupt CARv2 header; cannot resume from file")
 			}
 		}
 
